@@ -122,7 +122,7 @@ Definition pm_map (m : pmap) (seqno pid : Z) : (bool * Z * Z) * pmap :=
     ((true, seqno, 0), mkM (m_started m1) (w16 (seqno + 1)) pid 0 0 0 None)
   else (triple (pm_direct m seqno), m).
 
-Definition pm_reverse (m : pmap) (seqno : Z) : bool * Z * Z :=
+Definition pm_reverse_raw (m : pmap) (seqno : Z) : bool * Z * Z :=
   match m_entries m with
   | None => if m_delta m =? 0 then (true, seqno, 0) else (false, 0, 0)
   | Some es =>
@@ -134,6 +134,17 @@ Definition pm_reverse (m : pmap) (seqno : Z) : bool * Z * Z :=
                    (fun e => w16 (e_first e + e_delta e))
                    (fun e => w16 (seqno - e_delta e)))
   end.
+
+(* recent: the number of a packet that Map would treat as a late copy and not
+   as the start of a new sequence *)
+Definition pm_recent (m : pmap) (s : Z) : bool :=
+  m_started m && (cmp16 s (m_next m) <? 0) && (w16 (m_next m - s) <=? window).
+
+(* Reverse: the interval lookup, refused when the source packet is too old to
+   go through Map again without restarting it *)
+Definition pm_reverse (m : pmap) (seqno : Z) : bool * Z * Z :=
+  let '(ok, s, p) := pm_reverse_raw m seqno in
+  if ok && pm_recent m s then (true, s, p) else (false, 0, 0).
 
 Definition pm_drop (m : pmap) (seqno pid : Z) : bool * pmap :=
   if negb (m_started m) || negb (seqno =? m_next m) then (false, m)
